@@ -1,12 +1,14 @@
 #!/bin/bash
-# usage: confirm_mutant.sh <worktree> <demo test name>
-# confirms in the scratch worktree: (1) crate + existing tests pass with the change, (2) demo fails with it, (3) demo passes without it
-W="$1"; DEMO="$2"
+# usage: confirm_mutant.sh <worktree> <demo test name> [extra RUSTFLAGS]
+# confirms in the scratch worktree: (0) the worktree's src diff is the patch, (1) existing tests pass with the change,
+# (2) demo fails with it, (3) demo passes without it (git apply -R / git apply; no stash: the stash is shared between worktrees)
+W="$1"; DEMO="$2"; export RUSTFLAGS="$3"
 cd "$W" || exit 2
+git diff -- src | diff -q - patch.diff >/dev/null && echo "== worktree diff == patch.diff" || echo "== WARNING: worktree diff differs from patch.diff"
 echo "== existing tests with the change"
-cargo test --offline --lib 2>&1 | grep -E 'test result' | head -2
+RUSTFLAGS= cargo test --offline --lib 2>&1 | grep -E 'test result' | head -2
 echo "== demo with the change (expected: FAIL)"
 cargo test --offline --test "$DEMO" 2>&1 | grep -E 'test result|error\[' | head -3
 echo "== demo without the change (expected: ok)"
-git stash push -q -- src && cargo test --offline --test "$DEMO" 2>&1 | grep -E 'test result|error\[' | head -3; git stash pop -q
-git status --short | head -5
+git apply -R patch.diff && cargo test --offline --test "$DEMO" 2>&1 | grep -E 'test result|error\[' | head -3; git apply patch.diff
+git status --short | grep -v '^??' | head -5
